@@ -41,7 +41,7 @@ def cmdDec (args : List String) : String :=
     match Frozen.dtypeByName dt with
     | none => "bad-dtype"
     | some d =>
-      match decodeFile gbFloat d (Hex.toBits hex) with
+      match decodeFile gbFloat d (Hex.toBits (if hex == "-" then "" else hex)) with
       | .ok f rest =>
         let chunks := f.chunks.map fun c => s!"{metaStr c.cm} vals={valsStr (chunkVals d f.flags c)}"
         s!"ok flags={flagsStr f.flags} rest={rest.length} nchunks={f.chunks.length} | " ++ " | ".intercalate chunks
